@@ -1038,7 +1038,7 @@ class Models:
         bt = bt.noref()
         if isinstance(obj, LVS) and not isinstance(obj, ObjLV):
             ov = e.load(st, obj)
-            if isinstance(ov, Opaque): obj = ov
+            if isinstance(ov, (Opaque, ObjLV)): obj = ov
         if isinstance(obj, Opaque):
             for a_ in args: e.ev(a_, st, fr)
             return self.opaque_result(n, obj.what.split('<')[0] + '.' + name)
@@ -1438,7 +1438,7 @@ class Models:
                 if vt.ref and isinstance(cont, LVS): s.env[var['id']] = e.member_lv(s, cont, str(it), None)
                 else: s.env[var['id']] = items[it]
                 return True
-            return e.run_loop(n, st, fr, None, None, body, bind=bind)
+            return e.run_loop(n, st, fr, None, None, body, bind=bind, use_contract=False)      # fixed-size array: unrolled
         if isinstance(val, ObjLV) and val.ty.kind == 'vector':
             return self.range_for_vector(n, st, fr, val, var, vt, body)
         if self.is_scalar_set(val) and val.ty.kind == 'set':
